@@ -522,6 +522,12 @@ FIXED += [
      json.loads('{"result": "v1", "steps": [{"out": "v0", "table": "t0", "verb": "source"}, {"in": "v0", "items": [["b_r", ["fn", "floor", [["fn", "abs", [["fn", "neg", [["fn", "fill_null", [["col", {"n": "id", "v": "v0"}], ["col", {"n": "id", "v": "v0"}]], {}]], {}]], {}]], {}]]], "out": "v1", "verb": "mutate"}], "tables": [{"cols": [["id", "int64"], ["b", "uint16"], ["x", "bool"], ["d", "float64"]], "name": "t0", "rows": []}], "validate": "check"}')),
 ]
 
+FIXED += [
+    ('F73-sql-empty-select-list', 'C08', 'SQL SELECT around a subquery keeps a selected column when nothing of it is used',
+     "SQL: union of two aliased (subquery) summaries followed by summarize(count()) rendered 'SELECT FROM (...)' with an empty select list: only a deselected aggregate column was kept in the subquery",
+     json.loads('{"result": "v12", "steps": [{"out": "v0", "table": "t1", "verb": "source"}, {"in": "v0", "items": [["a_t1", ["fn", "sum", [["col", {"n": "b", "v": "v0"}]], {"filter": [["fn", "is_not_null", [["col", {"c": "c"}]], {}]]}]]], "out": "v4", "verb": "summarize"}, {"in": "v4", "items": [["a", ["fn", "sum", [["col", {"n": "a_t1", "v": "v4"}]], {}]], ["x", ["fn", "count_star", [], {}]]], "out": "v6", "verb": "summarize"}, {"cols": [{"n": "a", "v": "v6"}], "in": "v6", "out": "v8", "verb": "drop"}, {"cols": [{"c": "x"}], "in": "v6", "out": "v10", "verb": "select"}, {"distinct": false, "in": "v8", "out": "v11", "right": "v10", "verb": "union"}, {"in": "v11", "items": [["q", ["fn", "count_star", [], {}]]], "out": "v12", "verb": "summarize"}], "tables": [{"cols": [["id", "int64"], ["c", "int64"], ["b", "float64"], ["x", "date"], ["d", "date"]], "name": "t1", "rows": []}]}')),
+]
+
 
 def main():
     log = subprocess.run(["git", "-C", "/repo", "log", "--format=%h %s"], capture_output=True, text=True).stdout.splitlines()
